@@ -445,3 +445,43 @@ def copy_independent(ctx):
     ctx.prove("moving-the-copy-leaves-the-original", And([ctx.eq(positions_of(x), o) for x, o in zip(a, old)]))
     if what == "operation":
         ctx.prove("copy-keeps-patches-and-chops", cp.patch_names == ent.patch_names and len(cp.chops[0]) == 1 and cp.chops[0][0] is not ent.chops[0][0])
+
+
+# ------------------------------------------------------------------------------ curves (bounded tier)
+from classy_blocks.construct.curves.interpolated import SplineInterpolatedCurve  # noqa: E402
+
+
+@proof("C09", "bounded/curves-transform", level="B", samples=12,
+       cases=[(c, k, how) for c in ("linear", "spline", "discrete", "line", "circle") for k in KINDS for how in ("method", "list")],
+       functions=["classy_blocks.construct.curves.interpolated:InterpolatedCurveBase.parts", "classy_blocks.construct.curves.interpolators:InterpolatorBase.invalidate",
+                  "classy_blocks.construct.curves.analytic:CircleCurve.parts", "classy_blocks.base.element:ElementBase.transform"],
+       note="bounded stand-in only (scipy interpolators are external): points of the transformed curve equal the images of the "
+            "points of the original curve, for method calls and transformation lists, after the cache was filled")
+def curves_transform(ctx):
+    ck, kind, how = ctx.case
+    rng = ctx.rng
+    pts = np.cumsum(np.array([[rng.uniform(0.2, 1.5), rng.uniform(-1, 1), rng.uniform(-1, 1)] for _ in range(5)]), axis=0)
+    if ck == "linear":
+        curve, ts = LinearInterpolatedCurve(pts), [0.0, 0.13, 0.5, 0.77, 1.0]
+    elif ck == "spline":
+        curve, ts = SplineInterpolatedCurve(pts), [0.0, 0.13, 0.5, 0.77, 1.0]
+    elif ck == "discrete":
+        curve, ts = DiscreteCurve(pts), [0, 1, 2, 3, 4]
+    elif ck == "line":
+        curve, ts = LineCurve(pts[0], pts[1]), [0.0, 0.3, 1.0]
+    else:
+        curve, ts = CircleCurve(pts[0], pts[1], [rng.uniform(-1, 1), rng.uniform(-1, 1), 2.0]), [0.0, 0.7, 2.0, 5.0]
+        # normal must be perpendicular to the radius for a circle
+        r = pts[1] - pts[0]
+        n = np.cross(r, [rng.uniform(-1, 1), rng.uniform(-1, 1), 2.0])
+        curve = CircleCurve(pts[0], pts[1], n)
+    m = Map(ctx, kind)
+    before = [np.array(curve.get_point(t), dtype=float) for t in ts]   # also fills any cached interpolant
+    len0 = curve.length
+    if how == "method":
+        m.apply(curve)
+    else:
+        curve.transform([m.as_transformation()])
+    after = [np.array(curve.get_point(t), dtype=float) for t in ts]
+    ctx.prove("points-are-the-images", all(np.allclose(a, m.T(b), atol=1e-6 * (1 + np.abs(b).max())) for a, b in zip(after, before)))
+    ctx.prove("length-scaled-by-the-ratio", abs(curve.length - len0 * m.length_ratio) <= 1e-3 * (1 + abs(len0)))
